@@ -44,44 +44,54 @@ KIND_TF = {"internal": ("internal", "h5dataset"), "file": ("file", "hdf5"),
            "http": ("remote", "http"), "s3": ("remote", "s3"),
            "dcor": ("remote", "dcor"), "remote-hdf5": ("remote", "hdf5"),
            "internal-hdf5": ("internal", "hdf5")}
-RIDS = ["aa", "aab", "aabc", "ab", "b", "aa-x"]
+RIDS = ["aa", "aab", "aabc", "ab", "b", "aa-x", "aa ", "Aa", "a\u00e4",
+        "a\u00e4b"]
 TIMES = ["12:10:11", "12:10:12"]
 
-RULE = ("worlds of 1..6 .rtdc files with basin definitions between them: all "
-        "directed graphs (self references, k-cycles, chains, diamonds) over "
-        "<= 2 files in quick; in thorough every graph over <= 3 files in 6 "
-        "attribute variants, every 4-file graph with <= 6 edges once and "
-        "1500 sampled denser ones; random graphs up to 6 files; run identifiers equal / "
-        "prefix / unrelated / derived from date+time+setup / absent; basin "
-        "kinds file, internal, http, s3, dcor and the type/format mixes "
-        "remote+hdf5, internal+hdf5; locations absolute, relative to the "
-        "referrer, dangling; declared or undeclared feature lists; same and "
-        "mapped (basinmapN) event mapping; hash keys and colliding custom "
-        "keys; root opened through new_dataset (RTDC_HDF5), RTDC_HTTP and "
-        "RTDC_S3 (boto3, unsigned) on 127.0.0.1, directly or as hierarchy "
-        "child / grandchild; four orders of access. Non-trivial: at least one basin is followed from the "
-        "root; distinct = different case dict")
+RULE = ("worlds of 1..6 resources (.rtdc files and DCOR resources) with "
+        "basin definitions between them: all directed graphs (self "
+        "references, k-cycles, chains, diamonds) over <= 2 files in quick; in "
+        "thorough every graph over <= 3 files in 6 attribute variants, every "
+        "4-file graph with <= 6 edges once and 1500 sampled denser ones; "
+        "random graphs up to 6 files; run identifiers equal / prefix / "
+        "unrelated / with blanks, case, non-ASCII / empty / derived from "
+        "date+time+setup / absent; basin kinds file, internal (up to two per "
+        "file), http, s3, dcor and the type/format mixes remote+hdf5, "
+        "internal+hdf5; locations absolute, relative to the referrer, "
+        "dangling; declared or undeclared feature lists; legacy definitions "
+        "without mapping/features; same and mapped (basinmapN, never the "
+        "identity) event mapping, basin files with more events; hash keys, "
+        "colliding custom keys, DCOR definitions with and without key; root "
+        "opened through new_dataset (RTDC_HDF5), RTDC_HTTP, RTDC_S3 (boto3 "
+        "unsigned) and RTDC_DCOR (fake dcserv API) on loopback addresses, "
+        "directly or as hierarchy child / grandchild; four orders of access; "
+        "whole arrays read twice. Oracle-only: missing basinmap feature, "
+        "internal basin without mapping, enable_basins=False. Non-trivial: "
+        "at least one basin is followed from the root; distinct = different "
+        "case dict")
 TRUSTED_BASE = [
     "availability oracle: a location is available iff the generator created "
-    "the file / the loopback server serves it (file system and HTTP server "
-    "are not modelled)",
-    "not modelled: BasinAvailabilityChecker threads, the S3 transport "
-    "(boto3 against the loopback server; modelled like HTTP), the DCOR "
-    "transport (only its basin type, refusal of local basins and "
-    "unavailability of unreachable endpoints), RecursionError path of a "
-    "mapped basin whose basinmap feature is stored nowhere",
+    "the file / resource and the loopback server serves it (file system, "
+    "HTTP/S3 server and DCOR API are not modelled; availability is static)",
+    "not modelled: BasinAvailabilityChecker threads, caches of availability "
+    "and feature lists, the S3 transport (boto3 against the loopback server; "
+    "modelled like HTTP), the DCOR transport beyond metadata/basins of the "
+    "fake dcserv API, BasinProxy event mapping (checked by the oracle only)",
     "h5py iterates the 'basins' group by name (read back by the harness "
     "with h5py, not assumed)",
     "the derived measurement identifier (md5 of time_date_setup-id) is "
     "computed by the harness, not by the Coq model",
+    "the basin flags translator executes RTDCBase.basins_retrieve with "
+    "recording stand-ins for the basin classes",
 ]
 ASSUMPTIONS = [
-    "basin definitions are those RTDCWriter.store_basin can write, with the "
-    "type/format combinations listed in RULE; internal basins are mapped "
-    "and declare their features (the constructor rejects anything else)",
-    "every mapped basin's basinmap feature is stored in the referring file",
-    "the model follows the tree with the fixes 28899f0 and 960b418; on a "
-    "tree without them the check reports the violations (corpus 01-04)",
+    "correspondence cases use the type/format combinations listed in RULE; "
+    "internal basins are mapped and declare their features, every mapped "
+    "basin's basinmap feature is stored in the referring file (the inputs "
+    "violating this are oracle-only cases)",
+    "the model follows the tree with the fixes 28899f0, 960b418 and 7dc3f69; "
+    "on a tree without them the check reports the violations (corpus 01-04, "
+    "14, 15)",
 ]
 
 HEADER = ("From Coq Require Import ZArith List.\nImport ListNotations.\n"
@@ -91,8 +101,20 @@ HEADER = ("From Coq Require Import ZArith List.\nImport ListNotations.\n"
 # --------------------------------------------------------------------------
 # loopback range server serving a directory tree
 # --------------------------------------------------------------------------
-def _make_server(directory):
+DCOR_PATH = "/api/3/action/dcserv"
+
+
+def dcor_uuid(urlroot, idx):
+    """resource id of file idx of the case served below urlroot
+    (= "w<pid>/c<n>/data")"""
+    m = re.match(r"^w(\d+)/c(\d+)/data$", urlroot)
+    return "%08x-%04x-0000-%04x-c14000000000" % (
+        int(m.group(1)), int(m.group(2)), idx)
+
+
+def _make_server(directory, addr=("127.0.0.1", 0)):
     import http.server
+    import urllib.parse
 
     directory = os.path.realpath(directory)
 
@@ -103,7 +125,38 @@ def _make_server(directory):
         def log_message(self, *a):
             pass
 
+        def _dcor(self):
+            """a minimal DCOR `dcserv` API (version 2: basins only)"""
+            q = urllib.parse.parse_qs(urllib.parse.urlparse(self.path).query)
+            rid = (q.get("id") or [""])[0]
+            query = (q.get("query") or [""])[0]
+            m = re.match(r"^([0-9a-f]{8})-([0-9a-f]{4})-0000-([0-9a-f]{4})-"
+                         r"c14000000000$", rid)
+            ans = {"success": False, "error": {"message": "Not found"}}
+            if m:
+                path = os.path.join(directory, "w%d" % int(m.group(1), 16),
+                                    "c%d" % int(m.group(2), 16), "dcor",
+                                    "f%d.json" % int(m.group(3), 16))
+                if os.path.isfile(path):
+                    with open(path) as fd:
+                        dat = json.load(fd)
+                    if query == "valid":
+                        ans = {"success": True, "result": True}
+                    elif query in dat:
+                        ans = {"success": True, "result": dat[query]}
+                    else:
+                        ans = {"success": False,
+                               "error": {"message": "Unknown query"}}
+            body = json.dumps(ans).encode()
+            self.send_response(200)
+            self.send_header("Content-Type", "application/json")
+            self.send_header("Content-Length", str(len(body)))
+            self.end_headers()
+            self.wfile.write(body)
+
         def _answer(self, head):
+            if self.path.startswith(DCOR_PATH):
+                return self._dcor()
             rel = self.path.split("?")[0].lstrip("/")
             path = os.path.realpath(os.path.join(directory, rel))
             if not path.startswith(directory + os.sep) or \
@@ -143,9 +196,17 @@ def _make_server(directory):
         request_queue_size = 128
         daemon_threads = True
 
-    srv = S(("127.0.0.1", 0), H)
+    srv = S(addr, H)
     srv.handle_error = lambda *a: None   # clients drop streamed requests
     return srv
+
+
+def dcor_address():
+    """A loopback address of this run for the DCOR API: DCOR basin URLs
+    cannot carry a port, so the server needs port 80 on its own address."""
+    pid = os.getpid()
+    return "127.%d.%d.%d" % (10 + (pid // 65536) % 100, (pid // 256) % 256,
+                             1 + pid % 250)
 
 
 def _serve(directory):
@@ -156,10 +217,27 @@ def _serve(directory):
     return srv
 
 
-def _server_process(directory, conn):
-    srv = _make_server(directory)
-    conn.send(srv.server_address[1])
-    conn.close()
+def _server_process(directory, conn, dcor=False):
+    if dcor:
+        srv = None
+        base = os.getppid()
+        for k in range(40):
+            pid = base + 7919 * k
+            host = "127.%d.%d.%d" % (10 + (pid // 65536) % 100,
+                                     (pid // 256) % 256, 1 + pid % 250)
+            try:
+                srv = _make_server(directory, (host, 80))
+                break
+            except OSError:
+                continue
+        conn.send(host if srv is not None else None)
+        conn.close()
+        if srv is None:
+            return
+    else:
+        srv = _make_server(directory)
+        conn.send(srv.server_address[1])
+        conn.close()
     srv.serve_forever()
 
 
@@ -174,7 +252,14 @@ def start_servers(directory, n):
         p.start()
         ports.append(a.recv())
         procs.append(p)
-    return procs, ports
+    # the DCOR API of this run
+    a, b = ctx.Pipe()
+    p = ctx.Process(target=_server_process, args=(directory, b, True),
+                    daemon=True)
+    p.start()
+    dhost = a.recv()
+    procs.append(p)
+    return procs, (ports, dhost)
 
 
 # --------------------------------------------------------------------------
@@ -197,7 +282,7 @@ def file_rid(f):
     """The measurement identifier the file presents (None: none at all)"""
     if f["ridmode"] == "run":
         return f["rid"]
-    if f["ridmode"] == "derived":
+    if f["ridmode"] in ("derived", "empty"):
         return derived_id(f["time"])
     return None
 
@@ -205,8 +290,12 @@ def file_rid(f):
 def loc_string(case, base, port, referrer, kind, loc, salt):
     """The string written into the basin definition"""
     how, tgt = loc
-    port, urlroot = port
+    port, urlroot, dhost = port
     local = kind in ("file", "remote-hdf5", "internal-hdf5")
+    if kind == "dcor" and how == "here" and dhost:
+        # a full DCOR URL (cannot carry a port)
+        return "http://%s%s?id=%s" % (dhost, DCOR_PATH,
+                                      dcor_uuid(urlroot, tgt))
     if how == "nowhere":
         if local:
             return os.path.join(base, "data", "missing%d_%d.rtdc" % (tgt, salt))
@@ -229,15 +318,67 @@ def loc_string(case, base, port, referrer, kind, loc, salt):
     return os.path.relpath(os.path.join(base, "data", rel), rdir)
 
 
-def bmap(n):
+BMAPS = [[1, 0, 2, 1, 0], [2, 2, 0, 1, 1], [0, 2, 1, 0, 2], [1, 1, 1, 2, 0],
+         [2, 0, 1, 2, 2], [0, 0, 2, 1, 1], [1, 2, 0, 0, 1], [2, 1, 0, 2, 0],
+         [0, 1, 0, 2, 1], [1, 2, 2, 0, 0]]
+
+
+def nev(f):
+    """number of events of a file of the case"""
+    return f.get("nev", NEV)
+
+
+def bmap_list(n, length):
+    """basinmap<n> of a referrer with `length` events: no map is the
+    identity, every entry is a valid index of the shortest file"""
+    return BMAPS[n][:length]
+
+
+def bmap(n, length=NEV):
     import numpy as np
-    maps = [[0, 1, 2], [0, 0, 1], [0, 1, 1], [0, 2, 2], [0, 0, 2], [0, 2, 1],
-            [0, 0, 0], [0, 1, 0], [0, 2, 0], [0, 1, 2]]
-    # index 9 must differ from index 0 to get its own basinmap feature
-    m = list(maps[n])
-    if n == 9:
-        m = [0, 2, 2][:2] + [1]
-    return np.array(m, dtype=np.uint64)
+    return np.array(bmap_list(n, length), dtype=np.uint64)
+
+
+def write_dcor_resource(case, base, port, i):
+    """What the (fake) DCOR API answers for file i: metadata, size and the
+    basin definitions -- a list of dicts, with or without "key".  Returns the
+    (key, basin index) list in the order of the answer."""
+    f = case["files"][i]
+    exp = {"event count": nev(f), "sample": "verif sample", "run index": 1}
+    setup = {"channel width": 20.0, "chip region": "channel"}
+    if f["ridmode"] == "run":
+        exp["run identifier"] = f["rid"]
+    if f["ridmode"] != "none":
+        exp["date"] = "2024-03-05"
+        exp["time"] = f["time"]
+        setup["identifier"] = "verif-setup"
+    dicts = []
+    order = []
+    for bi, b in enumerate(f["basins"]):
+        btype, bfmt = KIND_TF[b["kind"]]
+        locs = [loc_string(case, base, port, i, b["kind"], lc,
+                           100 * i + 10 * bi + li)
+                for li, lc in enumerate(b["locs"])]
+        bd = {"name": "b%d" % bi, "type": btype, "format": bfmt,
+              "features": None if b["feats"] is None else
+              sorted("userdef%d" % x for x in b["feats"]),
+              "mapping": "same"}
+        bd["urls" if btype == "remote" else "paths"] = locs
+        if b.get("nokey"):
+            # the fix derives a key from the definition: equal definitions
+            # share it
+            key = "auto:" + json.dumps(bd, sort_keys=True)
+        else:
+            key = b.get("key") or "d%d_%d" % (i, bi)
+            bd["key"] = key
+        dicts.append(bd)
+        order.append((key, bi))
+    d = os.path.join(base, "dcor")
+    os.makedirs(d, exist_ok=True)
+    with open(os.path.join(d, "f%d.json" % i), "w") as fd:
+        json.dump({"metadata": {"experiment": exp, "setup": setup},
+                   "size": nev(f), "basins": dicts}, fd)
+    return order
 
 
 def write_world(case, base, port):
@@ -252,12 +393,21 @@ def write_world(case, base, port):
     paths = []
     keyorder = []
     for i, f in enumerate(case["files"]):
+        if f.get("dcor"):
+            keyorder.append(write_dcor_resource(case, base, port, i))
+            paths.append(None)
+            continue
         path = os.path.join(base, "data", file_relpath(case, i))
         os.makedirs(os.path.dirname(path), exist_ok=True)
         meta = gen.base_meta(run_id=f["rid"] if f["ridmode"] == "run"
                              else None)
+        L = nev(f)
         if f["ridmode"] == "derived":
             meta["experiment"]["time"] = f["time"]
+        elif f["ridmode"] == "empty":
+            # an empty run identifier counts as none (the derived one is used)
+            meta["experiment"]["time"] = f["time"]
+            meta["experiment"]["run identifier"] = ""
         elif f["ridmode"] == "none":
             meta["experiment"].pop("time")
             meta["experiment"].pop("date")
@@ -266,17 +416,17 @@ def write_world(case, base, port):
         with RTDCWriter(path, mode="reset") as hw:
             hw.store_metadata(meta)
             for ft in f["innate"]:
-                hw.store_feature("userdef%d" % ft, np.arange(NEV) * 1.0
+                hw.store_feature("userdef%d" % ft, np.arange(L) * 1.0
                                  + 1000 * (i + 1) + 10 * ft)
             if f["internal"]:
                 grp = hw.h5file.require_group("basin_events")
                 for ft in f["internal"]:
                     hw.write_ndarray(grp, "userdef%d" % ft,
-                                     np.arange(NEV) * 1.0
+                                     np.arange(L) * 1.0
                                      + 1000 * (i + 1) + 500 + 10 * ft)
             if not f["innate"]:
                 # a file needs an event count
-                hw.store_feature("frame", np.arange(1, NEV + 1,
+                hw.store_feature("frame", np.arange(1, L + 1,
                                                     dtype=np.uint64))
             for bi, b in enumerate(f["basins"]):
                 btype, bfmt = KIND_TF[b["kind"]]
@@ -286,7 +436,7 @@ def write_world(case, base, port):
                 feats = None if b["feats"] is None else [
                     "userdef%d" % x for x in b["feats"]]
                 mapping = None if b["map"] == 0 else (
-                    "basinmap%d" % (b["map"] - 1), bmap(b["map"] - 1))
+                    "basinmap%d" % (b["map"] - 1), bmap(b["map"] - 1, L))
                 if b["kind"] == "internal":
                     where = "basin_events" if b["locs"][0][0] == "here" \
                         else "no_such_group"
@@ -320,8 +470,22 @@ def write_world(case, base, port):
                         basin_format=bfmt, basin_locs=locs,
                         basin_feats=feats, basin_map=mapping, verify=False)
                 assigned.append(key)
-        # custom (possibly colliding) key names
+        # custom (possibly colliding) key names; legacy layout
         with h5py.File(path, "a") as h5:
+            for bi, b in enumerate(f["basins"]):
+                if b.get("legacy") and b["map"] == 0 and b["feats"] is None \
+                        and assigned[bi] in h5["basins"]:
+                    # definitions written before "mapping"/"features" existed
+                    dat = list(h5["basins"][assigned[bi]])
+                    dat = [x.decode("utf") if isinstance(x, bytes) else x
+                           for x in dat]
+                    bd = json.loads(" ".join(dat))
+                    for k in ("mapping", "features", "description"):
+                        bd.pop(k, None)
+                    lines = json.dumps(bd, indent=2).split("\n")
+                    del h5["basins"][assigned[bi]]
+                    h5["basins"].create_dataset(
+                        assigned[bi], data=np.array(lines, dtype="S"))
             final = {}
             for bi, b in enumerate(f["basins"]):
                 key = assigned[bi]
@@ -333,6 +497,24 @@ def write_world(case, base, port):
             order = [k for k in h5["basins"]] if "basins" in h5 else []
             keyorder.append([(k, final[k]) for k in order if k in final])
         paths.append(path)
+    exotic = case.get("exotic")
+    rpath = paths[case["root"]["file"]]
+    if exotic and rpath is not None:
+        with h5py.File(rpath, "a") as h5:
+            if exotic == "no-basinmap":
+                # mapped basins whose mapping feature is stored nowhere
+                for name in list(h5["events"]):
+                    if name.startswith("basinmap"):
+                        del h5["events"][name]
+            elif exotic == "internal-same":
+                # store_basin(basin_type="internal") without a mapping
+                bd = {"description": None, "format": "h5dataset",
+                      "name": "broken", "type": "internal",
+                      "features": None, "mapping": "same",
+                      "paths": ["basin_events"]}
+                lines = json.dumps(bd, indent=2).split("\n")
+                h5.require_group("basins").create_dataset(
+                    "zz_internal_same", data=np.array(lines, dtype="S"))
     return paths, keyorder
 
 
@@ -351,6 +533,15 @@ def _alarm(signum, frame):
             faulthandler.dump_traceback(file=fd, all_threads=True)
     _W["timed_out"] = True
     raise CaseTimeout()
+
+
+def case_limit(case):
+    """wall-clock limit of a case: every access of a dataset with a mapped
+    basin whose basinmap feature is missing unwinds a RecursionError (about
+    1 s each, some 20 accesses per case)"""
+    factor = float(os.environ.get("C14_LIMIT_FACTOR", "1"))
+    return factor * TIME_LIMIT * (
+        5 if case.get("exotic") == "no-basinmap" else 1)
 
 
 def observe(case, base, port):
@@ -384,12 +575,20 @@ def observe(case, base, port):
     # (every 0.5 s after the limit) until the exception gets through
     _W["timed_out"] = False
     signal.signal(signal.SIGALRM, _alarm)
-    signal.setitimer(signal.ITIMER_REAL, TIME_LIMIT, 0.5)
+    signal.setitimer(signal.ITIMER_REAL, case_limit(case), 0.5)
     ds = None
     parents = []
     try:
         if root["fmt"] == "hdf5":
-            ds = dclab.new_dataset(rootpath)
+            if case.get("exotic") == "no-basins":
+                from dclab.rtdc_dataset import fmt_hdf5
+                ds = fmt_hdf5.RTDC_HDF5(rootpath, enable_basins=False)
+            else:
+                ds = dclab.new_dataset(rootpath)
+        elif root["fmt"] == "dcor":
+            from dclab.rtdc_dataset import fmt_dcor
+            ds = fmt_dcor.RTDC_DCOR("http://%s%s?id=%s" % (
+                port[2], DCOR_PATH, dcor_uuid(port[1], root["file"])))
         elif root["fmt"] == "s3":
             from dclab.rtdc_dataset import fmt_s3
             url = "http://127.0.0.1:%d/%s/%s" % (
@@ -417,6 +616,7 @@ def observe(case, base, port):
             except BaseException as e:
                 res["fb"] = [-2]
                 res["fb_error"] = repr(e)
+                res["fb_errcls"] = [c.__name__ for c in type(e).__mro__]
 
         def obs_contains():
             res["contains"] = []
@@ -428,25 +628,52 @@ def observe(case, base, port):
                 except BaseException as e:
                     res["contains"].append(-2)
                     res["contains_error"] = repr(e)
+                    res["contains_errcls"] = [c.__name__
+                                              for c in type(e).__mro__]
 
         def obs_read():
+            import numpy as np
             res["source"] = []
+            res["events"] = []
             for ft in range(NFEAT):
+                ev = None
                 try:
-                    v = float(ds["userdef%d" % ft][0])
-                    src = int(v) // 1000 - 1
-                    internal = (int(v) % 1000) >= 500
-                    if (int(v) % 100) // 10 != ft or v != int(v):
-                        res["source"].append(-3)     # data of another feature
+                    arr = np.array(ds["userdef%d" % ft][:], dtype=float)
+                    vals = [float(x) for x in arr.ravel()]
+                    dec = set()
+                    ev = []
+                    for v in vals:
+                        if v != int(v) or v < 1000:
+                            dec.add("bad")
+                            continue
+                        iv = int(v)
+                        dec.add((iv // 1000 - 1, (iv % 1000) >= 500,
+                                 (iv % 100) // 10))
+                        ev.append(iv % 10)
+                    if len(dec) != 1 or "bad" in dec or \
+                            list(dec)[0][2] != ft or arr.ndim != 1:
+                        res["source"].append(-3)   # mixed / foreign data
                     else:
+                        src, internal, _ = list(dec)[0]
                         res["source"].append(src + (100 if internal else 0))
+                    # a second read must return the same data
+                    again = [float(x) for x in np.array(
+                        ds["userdef%d" % ft][:], dtype=float).ravel()]
+                    if again != vals:
+                        res["source"][-1] = -3
+                        res["reread"] = "userdef%d" % ft
                 except CaseTimeout:
                     raise
                 except KeyError:
                     res["source"].append(-1)
+                    ev = None
                 except BaseException as e:
                     res["source"].append(-2)
                     res["source_error"] = repr(e)
+                    res["source_errcls"] = [c.__name__
+                                            for c in type(e).__mro__]
+                    ev = None
+                res["events"].append(ev)
 
         # the order of the accesses must not matter (lazy construction,
         # caches, removal of unavailable basins)
@@ -469,6 +696,7 @@ def observe(case, base, port):
     except BaseException as e:
         res["status"] = 2
         res["error"] = repr(e)
+        res["errcls"] = [c.__name__ for c in type(e).__mro__]
     finally:
         signal.setitimer(signal.ITIMER_REAL, 0)
         if _W.get("timed_out"):
@@ -533,7 +761,7 @@ def observe_in_child(case, base, port):
             os._exit(code)
     os.close(w)
     buf = b""
-    t_end = time.time() + TIME_LIMIT + 2.5
+    t_end = time.time() + case_limit(case) + 2.5
     alive = True
     try:
         while True:
@@ -630,10 +858,12 @@ def render(case, keyorder):
                     "internal-hdf5": "KInternalHdf5"}[b["kind"]]
             bs.append("mkBasin %d %s %d %s %s" % (
                 kid, kind, b["map"], common.clist(locs), feats))
-        files.append("mkFile %s %s %s %s" % (
+        files.append("mkFile %s %s %s %s %s" % (
             rid_lit(file_rid(f)), common.zlist(sorted(f["innate"])),
-            common.zlist(sorted(f["internal"])), common.clist(bs)))
-    fm = {"hdf5": "FHdf5", "http": "FHttp", "s3": "FS3"}[case["root"]["fmt"]]
+            common.zlist(sorted(f["internal"])), common.clist(bs),
+            "true" if f.get("dcor") else "false"))
+    fm = {"hdf5": "FHdf5", "http": "FHttp", "s3": "FS3",
+          "dcor": "FDcor"}[case["root"]["fmt"]]
     return "(%s, %s, %d%%nat, %d%%nat)" % (common.clist(files), fm,
                                            case["root"]["file"],
                                            case.get("hier", 0))
@@ -646,10 +876,16 @@ def _prefix(a, b):
     return b[:len(a)] == a
 
 
-def spec_edges(case, remote_always_match=False):
+def spec_edges(case, relax=()):
     """Edges (referrer, basin, target, class) that the property allows to be
-    used, ignoring permission (depends on the path): available and
-    identifier-matching."""
+    used, ignoring permission (depends on the path): the location exists and
+    the basin belongs to the same measurement by the property text -- both
+    identifiers absent, or both present and equal ("same" mapping) /
+    the basin's a prefix of the referrer's (mapped).
+    `relax` names the known deviations of the code:
+      "idless"     a referrer without identifier accepts every basin
+      "unverified" basins not of type "file" are never verified for listing
+    """
     edges = []
     nfiles = len(case["files"])
     for i, f in enumerate(case["files"]):
@@ -668,18 +904,19 @@ def spec_edges(case, remote_always_match=False):
                     continue
                 if how == "rel" and b["kind"] != "file":
                     continue
-                if b["kind"] == "dcor":
-                    continue      # never reachable in this environment
+                tdcor = bool(case["files"][tgt].get("dcor"))
+                if tdcor != (b["kind"] == "dcor"):
+                    continue      # a DCOR resource is only served by the API
                 rid_t = file_rid(case["files"][tgt])
                 if rid_i is None:
-                    ok = True
+                    ok = rid_t is None or "idless" in relax
                 elif rid_t is None:
                     ok = False
                 elif b["map"] == 0:
                     ok = rid_i == rid_t
                 else:
                     ok = _prefix(rid_t, rid_i)
-                if remote_always_match and b["kind"] != "file":
+                if "unverified" in relax and b["kind"] != "file":
                     # basins that are appended without verification
                     ok = True
                 if ok:
@@ -687,31 +924,43 @@ def spec_edges(case, remote_always_match=False):
     return edges
 
 
-def spec_reach(case, remote_always_match=False):
-    """States (file, via_network) reachable from the root along allowed
-    edges; a local edge may only leave a dataset opened from disk."""
-    edges = spec_edges(case, remote_always_match)
-    start = (case["root"]["file"], case["root"]["fmt"] != "hdf5")
+def spec_states(case, relax=()):
+    """States (file, via_network, events) reachable from the root along
+    allowed edges; a local edge may only leave a dataset opened from disk.
+    `events[k]` is the event of the file that root event k maps to."""
+    edges = spec_edges(case, relax)
+    rootf = case["files"][case["root"]["file"]]
+    start = (case["root"]["file"], case["root"]["fmt"] != "hdf5",
+             tuple(range(nev(rootf))))
     seen = {start}
     todo = [start]
     while todo:
-        i, net = todo.pop()
+        i, net, vec = todo.pop()
         for (r, b, t, cls) in edges:
             if r != i:
                 continue
             if cls == "local" and net:
                 continue
-            st = (t, cls == "net")
-            if st not in seen:
+            if b["map"] == 0:
+                nvec = vec
+            else:
+                bm = bmap_list(b["map"] - 1, nev(case["files"][i]))
+                nvec = tuple(bm[v] if v < len(bm) else -1 for v in vec)
+            st = (t, cls == "net", nvec)
+            if st not in seen and len(seen) < 5000:
                 seen.add(st)
                 todo.append(st)
     return seen, edges
 
 
-def spec_justified(case, remote_always_match=False):
+def spec_reach(case, relax=()):
+    states, edges = spec_states(case, relax)
+    return set((i, net) for (i, net, _) in states), edges
+
+
+def spec_justified(case, relax=()):
     """Least set J[state] of features a dataset may list as basin features"""
-    seen, edges = spec_reach(case, remote_always_match)
-    nfiles = len(case["files"])
+    seen, edges = spec_reach(case, relax)
     J = {st: set() for st in seen}
     changed = True
     while changed:
@@ -738,8 +987,90 @@ def spec_justified(case, remote_always_match=False):
     return J, seen
 
 
+def served_ok(case, relax, ft, fid, internal, events):
+    """Is (file, store, event alignment) a legitimate origin of the data
+    returned for feature ft?  Returns "ok", "events" (right store, wrong
+    event alignment) or "no"."""
+    states, _ = spec_states(case, relax)
+    best = "no"
+    for (i, net, vec) in states:
+        if i != fid:
+            continue
+        f = case["files"][i]
+        if not internal and ft in f["innate"]:
+            if events is None or tuple(events) == vec:
+                return "ok"
+            best = "events"
+        if internal and ft in f["internal"]:
+            for b in f["basins"]:
+                if b["kind"] == "internal" and ft in (b["feats"] or []) \
+                        and b["map"] > 0:
+                    bm = bmap_list(b["map"] - 1, nev(f))
+                    want = tuple(bm[v] if 0 <= v < len(bm) else -1
+                                 for v in vec)
+                    if events is None or tuple(events) == want:
+                        return "ok"
+                    best = "events"
+    return best
+
+
+FIND_IDLESS = "C14-idless-referrer-unchecked"
+FIND_UNVERIFIED = "C14-mismatch-listed-unverified"
+
+
+def oracle_exotic(case, res):
+    """Inputs outside the model (ASSUMPTIONS): a mapped basin whose basinmap
+    feature is stored nowhere, an internal basin without mapping, a root
+    opened with enable_basins=False.  The property still demands: it ends,
+    no local open below a network format, and whatever is served comes from
+    a legitimate origin.  Refusing with the documented error classes
+    (KeyError family / ValueError) is not wrong data."""
+    kind = case["exotic"]
+    if res["status"] == 1:
+        return ("[%s] opening/reading did not finish within %d s" % (
+            kind, case_limit(case)), None)
+    allowed = {"no-basinmap": ("KeyError",), "internal-same": ("ValueError",),
+               "no-basins": ()}[kind]
+    if res["status"] == 2:
+        # e.g. the hierarchy child cannot be built on such a parent
+        if any(a in (res.get("errcls") or []) for a in allowed):
+            return None
+        return ("[%s] opening the root raised %s" % (kind, res.get("error")),
+                None)
+    if case["root"]["fmt"] != "hdf5" and res["touched"]:
+        return ("[%s] local files %s opened below a network format" % (
+            kind, res["touched"]), None)
+    for what in ("fb", "contains", "source"):
+        cls = res.get(what + "_errcls")
+        if cls is not None and not any(a in cls for a in allowed):
+            return ("[%s] %s raised %s" % (kind, what,
+                                           res.get(what + "_error")), None)
+    rootf = case["files"][case["root"]["file"]]
+    evs = res.get("events") or [None] * NFEAT
+    for ft, src in enumerate(res["source"]):
+        if src == -3:
+            return ("[%s] userdef%d returned mixed or foreign data" % (
+                kind, ft), None)
+        if src < 0:
+            continue
+        if kind == "no-basins":
+            if src != case["root"]["file"] or ft not in rootf["innate"]:
+                return ("[no-basins] userdef%d served from a basin although "
+                        "basins are disabled" % ft, None)
+            continue
+        if served_ok(case, ("idless",), ft, src % 100, src >= 100,
+                     evs[ft]) != "ok":
+            return ("[%s] userdef%d served from file %d, not a legitimate "
+                    "origin" % (kind, ft, src % 100), None)
+    if kind == "no-basins" and res["fb"] not in ([], [-2]):
+        return ("[no-basins] features_basin is %s" % res["fb"], None)
+    return None
+
+
 def oracle(case, res):
     """Returns (description, finding id) of the first failure, or None."""
+    if case.get("exotic"):
+        return oracle_exotic(case, res)
     if res["status"] == 1:
         return ("opening/reading did not finish within %d s" % TIME_LIMIT,
                 None)
@@ -776,31 +1107,37 @@ def oracle(case, res):
                 "referenced from datasets accessed through a network format"
                 % bad, None)
     rootf = case["files"][root["file"]]
+    evs = res.get("events") or [None] * NFEAT
+    idless_served = None
     for ft, src in enumerate(res["source"]):
         if src == -2:
             return ("reading userdef%d raised %s" % (
                 ft, res.get("source_error")), None)
         if src == -3:
-            return ("userdef%d returned data of another feature" % ft, None)
+            return ("userdef%d returned mixed data, data of another feature "
+                    "or different data on the second read" % ft, None)
         if src < 0:
             continue
         fid, internal = src % 100, src >= 100
-        good = False
-        for (i, net) in seen:
-            if i != fid:
-                continue
-            f = case["files"][i]
-            if not internal and ft in f["innate"]:
-                good = True
-            if internal and ft in f["internal"] and any(
-                    b["kind"] == "internal" and ft in (b["feats"] or [])
-                    for b in f["basins"]):
-                good = True
-        if not good:
-            return ("userdef%d was served from file %d%s, which is not "
-                    "reachable through permitted, available and matching "
-                    "basins" % (ft, fid, " (basin_events)" if internal
-                                else ""), None)
+        verdict = served_ok(case, (), ft, fid, internal, evs[ft])
+        if verdict == "ok":
+            continue
+        where = "file %d%s" % (fid, " (basin_events)" if internal else "")
+        if verdict == "events":
+            return ("userdef%d comes from %s but with the events %s, which no "
+                    "chain of basin mappings from the root produces" % (
+                        ft, where, evs[ft]), None)
+        if served_ok(case, ("idless",), ft, fid, internal, evs[ft]) == "ok":
+            if idless_served is None:
+                idless_served = (
+                    "userdef%d was served from %s, reached through a basin "
+                    "with a run identifier although its referrer has none "
+                    "(no check is made for such referrers)" % (ft, where),
+                    FIND_IDLESS)
+            continue
+        return ("userdef%d was served from %s, which is not reachable "
+                "through permitted, available and matching basins" % (
+                    ft, where), None)
     if res["fb"] == [-2]:
         return ("features_basin raised %s" % res.get("fb_error"), None)
     for ft, c in enumerate(res["contains"]):
@@ -824,15 +1161,23 @@ def oracle(case, res):
                         got - union), None)
     excess = sorted(set(res["fb"]) - J[start])
     if excess:
-        J2, _ = spec_justified(case, remote_always_match=True)
-        if not (set(res["fb"]) - J2[start]):
+        fb = set(res["fb"])
+        if not (fb - spec_justified(case, ("idless",))[0][start]):
+            return ("features_basin lists userdef%s, provided only through a "
+                    "basin with a run identifier whose referrer has none"
+                    % excess, FIND_IDLESS)
+        if not (fb - spec_justified(case, ("unverified",))[0][start]) or \
+                not (fb - spec_justified(case, ("unverified", "idless")
+                                         )[0][start]):
             return ("features_basin lists userdef%s which only a basin "
                     "that is not of type 'file' (appended without "
                     "verification) with a mismatching run identifier "
                     "provides; reading raises KeyError" % excess,
-                    "C14-mismatch-listed-unverified")
+                    FIND_UNVERIFIED)
         return ("features_basin lists userdef%s, not provided by any "
                 "permitted, available and matching basin" % excess, None)
+    if idless_served is not None:
+        return idless_served
     return None
 
 
@@ -854,8 +1199,10 @@ def rand_rid(rng):
     r = rng.random()
     if r < 0.6:
         return dict(rid=rng.choice(RIDS), ridmode="run", time=TIMES[0])
-    if r < 0.8:
+    if r < 0.76:
         return dict(rid=None, ridmode="derived", time=rng.choice(TIMES))
+    if r < 0.8:
+        return dict(rid=None, ridmode="empty", time=rng.choice(TIMES))
     return dict(rid=None, ridmode="none", time=TIMES[0])
 
 
@@ -898,11 +1245,11 @@ def rand_basin(rng, n, i, j, net_bias):
     if net_bias:
         kind = "http" if r < 0.62 else "file" if r < 0.8 else \
             "remote-hdf5" if r < 0.9 else "internal-hdf5" if r < 0.94 \
-            else rng.choice(["s3", "dcor"])
+            else rng.choice(["s3", "dcor", "dcor"])
     else:
         kind = "file" if r < 0.62 else "http" if r < 0.8 else \
             "remote-hdf5" if r < 0.88 else "internal-hdf5" if r < 0.93 \
-            else rng.choice(["s3", "dcor"])
+            else rng.choice(["s3", "dcor", "dcor"])
     other = rng.randint(0, n - 1)
     if kind == "dcor":
         locs = [("nowhere", rng.randint(0, 3))]
@@ -933,6 +1280,58 @@ def rand_basin(rng, n, i, j, net_bias):
     m = 0 if rng.random() < 0.65 else rng.randint(1, 3)
     key = rng.choice(["k0", "k1", "k2"]) if rng.random() < 0.12 else None
     return _basin(kind, locs, feats, m, key)
+
+
+def make_dcor(rng, files, j):
+    """turn file j into a DCOR resource (API only: no events of its own, no
+    mapped basins since there is no basinmap feature to refer to)"""
+    f = files[j]
+    f.update(dcor=True, innate=[], internal=[], dir="")
+    f.pop("nev", None)
+    if f["ridmode"] == "empty":
+        f["ridmode"] = "derived"
+    f["basins"] = [b for b in f["basins"] if b["kind"] != "internal"]
+    for b in f["basins"]:
+        b["map"] = 0
+        b.pop("legacy", None)
+        if b["key"] is None and rng.random() < 0.5:
+            b["nokey"] = True
+    # what points at it must be a DCOR basin to reach it
+    for f2 in files:
+        for b in f2["basins"]:
+            if b["kind"] != "internal" and any(
+                    how != "nowhere" and t == j for how, t in b["locs"]) \
+                    and rng.random() < 0.75:
+                b["kind"] = "dcor"
+                b["locs"] = [["here", j]]
+                b.pop("legacy", None)
+
+
+def add_dcor(rng, files, root_dcor):
+    if root_dcor:
+        make_dcor(rng, files, 0)
+    for j in range(1, len(files)):
+        if rng.random() < (0.25 if root_dcor else 0.07):
+            make_dcor(rng, files, j)
+
+
+def finish_case(rng, files):
+    """legacy layouts and longer basin files (only where every reference to
+    the file is mapped, so that the lengths fit)"""
+    for f in files:
+        if f.get("dcor"):
+            continue
+        for b in f["basins"]:
+            if b["kind"] in ("file", "http") and b["map"] == 0 and \
+                    b["feats"] is None and rng.random() < 0.15:
+                b["legacy"] = True
+    for j in range(1, len(files)):
+        refs = [b for f in files for b in f["basins"]
+                if b["kind"] != "internal"
+                and any(how != "nowhere" and t == j for how, t in b["locs"])]
+        if refs and all(b["map"] > 0 for b in refs) and rng.random() < 0.5 \
+                and not files[j].get("dcor"):
+            files[j]["nev"] = 5
 
 
 def gen_case(rng, max_files=6):
@@ -966,9 +1365,18 @@ def gen_case(rng, max_files=6):
             f["basins"].append(_basin(
                 "internal", [("here" if rng.random() < 0.85 else "nowhere",
                               0)], decl, rng.randint(1, 3)))
+            if rng.random() < 0.3:
+                # a second internal basin of the same file
+                f["basins"].append(_basin(
+                    "internal", [("here", 0)],
+                    set(rng.sample(range(NFEAT), 2)) | set(f["internal"][-1:]),
+                    rng.randint(1, 4)))
     rootfmt = "hdf5"
     if net_root:
-        rootfmt = "s3" if rng.random() < 0.15 else "http"
+        r = rng.random()
+        rootfmt = "s3" if r < 0.07 else "dcor" if r < 0.27 else "http"
+    add_dcor(rng, files, rootfmt == "dcor")
+    finish_case(rng, files)
     return dict(root=dict(fmt=rootfmt, file=0), files=files,
                 proto=rng.choice([0, 0, 1, 2, 3]),
                 hier=rng.choice([0, 0, 0, 1, 2]))
@@ -1051,11 +1459,9 @@ def _worker_init(scratch, ports, tcount=None, tmax=None):
     os.makedirs(base, exist_ok=True)
     _W["base"] = base
     _W["rel"] = "w%d" % os.getpid()
-    if ports:
-        _W["port"] = ports[os.getpid() % len(ports)]
-    else:
-        _W["srv"] = _serve(scratch)
-        _W["port"] = _W["srv"].server_address[1]
+    ports, dhost = ports
+    _W["port"] = ports[os.getpid() % len(ports)]
+    _W["dhost"] = dhost
     _W["n"] = 0
 
 
@@ -1068,13 +1474,14 @@ def run_one(case):
         # the server serves the scratch root; URLs carry the directories
         port = _W["port"]
         urlroot = "%s/c%d/data" % (_W["rel"], _W["n"])
-        paths, keyorder = write_world(case, base, (port, urlroot))
+        where = (port, urlroot, _W["dhost"])
+        paths, keyorder = write_world(case, base, where)
         t0 = time.time()
         if has_cycle(case):
-            res = observe_in_child(case, base, (port, urlroot))
+            res = observe_in_child(case, base, where)
         else:
             # no reference cycle: the in-process timer is enough
-            res = observe(case, base, (port, urlroot))
+            res = observe(case, base, where)
         res["elapsed"] = round(time.time() - t0, 2)
     finally:
         shutil.rmtree(base, ignore_errors=True)
@@ -1128,7 +1535,7 @@ def run_cases(scratch, cases, nproc=None, budget=None, max_timeouts=None):
                       initargs=(scratch, ports, tcount, max_timeouts)) as pool:
             asyncs = [pool.apply_async(_work, (ch,)) for ch in chunks]
             for ch, a in zip(chunks, asyncs):
-                limit = TIME_LIMIT * len(ch) + 120
+                limit = sum(case_limit(c) for c in ch) + 120
                 if t_end is not None:
                     limit = min(limit, max(0.05, t_end - time.time()))
                 try:
@@ -1161,6 +1568,15 @@ def check_cases(run, cases, record=True):
                         budget=900 if run.thorough else 200,
                         max_timeouts=12 if run.thorough else 3)
     _dbg("stage 1 done")
+    if os.environ.get("C14_TIMING"):
+        slow = sorted(((r[0].get("elapsed", 0), k) for k, r in
+                       enumerate(results)), reverse=True)[:6]
+        for el, k in slow:
+            _dbg("slow %.1fs root=%s exotic=%s files=%d hier=%s kinds=%s" % (
+                el, cases[k]["root"]["fmt"], cases[k].get("exotic"),
+                len(cases[k]["files"]), cases[k].get("hier"),
+                sorted(set(b["kind"] for f in cases[k]["files"]
+                           for b in f["basins"]))))
     skipped = set(k for k, r in enumerate(results) if r[0]["status"] == 4)
     if skipped:
         run.notes.append("%d of %d cases not evaluated (time budget of the "
@@ -1178,7 +1594,7 @@ def check_cases(run, cases, record=True):
             shard=200)))
 
     idx = [k for k in range(len(cases)) if results[k][1] is not None
-           and results[k][0]["status"] != 3]
+           and results[k][0]["status"] != 3 and not cases[k].get("exotic")]
     model = model_of(idx)
     _dbg("model done")
     # Timeouts, disagreements and unknown oracle failures are re-run once
@@ -1195,10 +1611,17 @@ def check_cases(run, cases, record=True):
     tmo = [k for k in again if results[k][0]["status"] == 1]
     rec = [k for k in again if "RecursionError" in json.dumps(results[k][0])]
     again = [k for k in again if k not in tmo and k not in rec][:16] \
-        + tmo[:2] + rec[:2]
+        + tmo[:6] + rec[:2]
     if again:
-        redo = run_cases(run.scratch, [cases[k] for k in again], nproc=8,
-                         budget=90)
+        # (a case that ran into the limit gets three times the limit: on a
+        # loaded machine dclab's 0.5 s request timeout x 100 retries can eat
+        # the limit of a case that needs a second)
+        os.environ["C14_LIMIT_FACTOR"] = "3"
+        try:
+            redo = run_cases(run.scratch, [cases[k] for k in again], nproc=8,
+                             budget=150)
+        finally:
+            os.environ.pop("C14_LIMIT_FACTOR", None)
         for k, r in zip(again, redo):
             if r[1] is not None and r[0]["status"] not in (3, 4):
                 if flat_impl(r[0]) != flat_impl(results[k][0]):
@@ -1218,6 +1641,8 @@ def check_cases(run, cases, record=True):
                 for b in f["basins"]:
                     run.count("kind:%s" % b["kind"])
             run.count("status=%d" % res["status"])
+            if case.get("exotic"):
+                run.count("oracle-only:%s" % case["exotic"])
             if res["fb"] and res["fb"] != [-2]:
                 run.count("offers-basin-features")
         if res["status"] == 3 or keyorder is None:
@@ -1257,6 +1682,33 @@ def run(run):
             cases.append(graph_case(4, edges, (
                 run.rng.choice(["hdf5", "hdf5", "http"]),
                 run.rng.choice(["equal", "odd-one"])), run.rng))
+    for _ in range(300 if run.thorough else 24):
+        c = gen_case(run.rng, max_files=4)
+        if c["root"]["fmt"] not in ("hdf5", "http"):
+            c["root"]["fmt"] = "http"
+            for f in c["files"]:
+                f.pop("dcor", None)
+        # (the first kind costs about 1 s per access of the dataset)
+        c["exotic"] = run.rng.choice(["no-basinmap"] + 3 * ["internal-same"]
+                                     + 3 * ["no-basins"])
+        if c["exotic"] == "no-basins":
+            c["root"]["fmt"] = "hdf5"
+        if c["exotic"] == "no-basinmap":
+            # local only: over the network every level of the RecursionError
+            # path opens the basin anew (minutes per access; it ends)
+            c["root"]["fmt"] = "hdf5"
+            for f in c["files"]:
+                f.pop("dcor", None)
+                for b in f["basins"]:
+                    if b["kind"] in ("http", "s3", "dcor"):
+                        b["kind"] = "file"
+                        b["locs"] = [lc for lc in b["locs"]][:2]
+                        b.pop("nokey", None)
+            if not any(b["map"] for b in c["files"][0]["basins"]):
+                for b in c["files"][0]["basins"][:2]:
+                    if b["kind"] != "internal":
+                        b["map"] = 1 + run.rng.randint(0, 2)
+        cases.append(c)
     nrand = 4000 if run.thorough else 330
     for _ in range(nrand):
         cases.append(gen_case(run.rng))
